@@ -188,6 +188,11 @@ const procTimeout = 8 * time.Second
 
 // procRepeat runs every program `reps` times in fresh processes, `workers` at a time.
 func procRepeat(bin string, ps []*prog, reps, workers int) []*tally {
+	return procRepeatWith(bin, ps, reps, workers, nil)
+}
+
+// procRepeatWith: canon (may be nil) is applied to every outcome before it is tallied
+func procRepeatWith(bin string, ps []*prog, reps, workers int, canon func(Outcome) Outcome) []*tally {
 	res := make([]*tally, len(ps))
 	type task struct{ i int }
 	var mu sync.Mutex
@@ -202,6 +207,9 @@ func procRepeat(bin string, ps []*prog, reps, workers int) []*tally {
 			defer wg.Done()
 			for t := range ch {
 				o := runProcess(bin, ps[t.i].File, ps[t.i].Dir, procTimeout)
+				if canon != nil {
+					o = canon(o)
+				}
 				mu.Lock()
 				res[t.i].add(o, ps[t.i].MaskLog)
 				mu.Unlock()
@@ -292,6 +300,14 @@ func Run(c *vh.Ctx) {
 		c.Note("phase %s: %.1fs", what, time.Since(t0).Seconds())
 		t0 = time.Now()
 	}
+	if os.Getenv("C20_ONLY") == "reorder" { // development aid: only the round-5 streams
+		e.reorderStream(m)
+		lap("reorder stream")
+		e.closureProbe()
+		e.ksortModelStream(m, ksortCases())
+		lap("closure probe; ksort/krsort against the model")
+		return
+	}
 	e.orderStream()
 	lap("script-level insertion order")
 	pool := e.buildPool()
@@ -307,6 +323,11 @@ func Run(c *vh.Ctx) {
 	lap("pairs")
 	e.knownStream()
 	lap("known stream")
+	e.reorderStream(m)
+	lap("reorder stream")
+	e.closureProbe()
+	e.ksortModelStream(m, ksortCases())
+	lap("closure probe; ksort/krsort against the model")
 }
 
 // ---------------------------------------------------------------- pool
@@ -547,6 +568,28 @@ func (e *env) replay(m *vh.Model) {
 		var cs omCase
 		if json.Unmarshal(c.ReplayRaw, &cs) == nil {
 			omCheck(c, m, []omCase{cs})
+		}
+		return
+	case "reorder", "ksortm", "closure":
+		bin, err := buildOrigami(c.Repo, c.Scratch)
+		if err != nil {
+			c.Mismatch(nil, err.Error(), "", "interpreter build failed")
+			return
+		}
+		e.bin = bin
+		_, e.need = calibrate()
+		if probe.Kind == "closure" {
+			e.closureProbe()
+		} else if probe.Kind == "reorder" {
+			var rc reorderCase
+			if json.Unmarshal(c.ReplayRaw, &rc) == nil {
+				e.reorderCheck(rc)
+			}
+		} else {
+			var kc ksortCase
+			if json.Unmarshal(c.ReplayRaw, &kc) == nil {
+				e.ksortModelStream(m, []ksortCase{kc})
+			}
 		}
 		return
 	case "order":
